@@ -765,6 +765,36 @@ func (r *Run) checkReply(c Cmd, pred Pred, rm map[string]any, p *Proc, post *Obs
 		if str(rm, "id") != id {
 			bad("id", "reported id %q", str(rm, "id"))
 		}
+		if c.Raw == nil {
+			// updated_fields names the fields the request carried
+			flagsMode := c.Mode == "flags" || c.Mode == "bodystdin"
+			has := func(p *string, blankCounts bool) bool {
+				if p == nil {
+					return false
+				}
+				if flagsMode && *p == "" {
+					return false
+				}
+				if blankCounts && flagsMode && blank(*p) {
+					return false
+				}
+				return true
+			}
+			var want []string
+			for _, f := range []struct {
+				name string
+				p    *string
+				b    bool
+			}{{"title", c.Title, true}, {"body", c.Body, false}, {"epic", c.Epic, false}, {"state", c.State, false}, {"claim", c.Claim, false}, {"result_path", c.RPath, false}, {"result_summary", c.RSum, false}} {
+				if has(f.p, f.b) {
+					want = append(want, f.name)
+				}
+			}
+			got := sortedCopy(strList(rm["updated_fields"]))
+			if !eqStrs(got, sortedCopy(want)) {
+				bad("updated_fields", "reported updated_fields %v, the request carried %v", got, sortedCopy(want))
+			}
+		}
 		if oi != nil && oi.Shown && oi.Kind == "task" {
 			if str(rm, "state") != oi.State {
 				bad("state", "reported state %q, show says %q", str(rm, "state"), oi.State)
